@@ -298,7 +298,10 @@ func (l *List) Accept(sta funcGen.Stack[Value]) (*List, error) {
 		return nil, err
 	}
 	return NewListFromIterable(func(st funcGen.Stack[Value]) iterator.Producer[Value] {
-		return iterator.FilterAuto[Value](l.iterable(st), func() func(v Value) (bool, error) {
+		// The filter may be executed in parallel. In this case the source list is
+		// iterated concurrently to the consumers of the filtered list, which use
+		// the stack st. Therefore the source needs its own stack.
+		return iterator.FilterAuto[Value](l.iterable(funcGen.NewEmptyStack[Value]()), func() func(v Value) (bool, error) {
 			s := funcGen.NewEmptyStack[Value]()
 			return func(v Value) (bool, error) {
 				eval, err := f.Eval(s, v)
@@ -320,7 +323,10 @@ func (l *List) Map(sta funcGen.Stack[Value]) (*List, error) {
 		return nil, err
 	}
 	return NewListFromSizedIterable(func(st funcGen.Stack[Value]) iterator.Producer[Value] {
-		return iterator.MapAuto[Value, Value](l.iterable(st), func() func(i int, v Value) (Value, error) {
+		// The map may be executed in parallel. In this case the source list is
+		// iterated concurrently to the consumers of the mapped list, which use
+		// the stack st. Therefore the source needs its own stack.
+		return iterator.MapAuto[Value, Value](l.iterable(funcGen.NewEmptyStack[Value]()), func() func(i int, v Value) (Value, error) {
 			s := funcGen.NewEmptyStack[Value]()
 			return func(i int, v Value) (Value, error) {
 				return f.Eval(s, v)
@@ -400,7 +406,10 @@ func (l *List) Merge(sta funcGen.Stack[Value]) (*List, error) {
 	}
 	if otherList, ok := other.ToList(); ok {
 		return NewListFromIterable(func(st funcGen.Stack[Value]) iterator.Producer[Value] {
-			return iterator.Merge(l.iterable(st), otherList.iterable(st),
+			// Both lists are iterated in their own goroutine, concurrently to the
+			// less function, which uses the stack st. Therefore, both lists need
+			// their own stack.
+			return iterator.Merge(l.iterable(funcGen.NewEmptyStack[Value]()), otherList.iterable(funcGen.NewEmptyStack[Value]()),
 				func(a, b Value) (bool, error) {
 					st.Push(a)
 					st.Push(b)
